@@ -157,6 +157,8 @@ class Ctx:
         raise NearTie()
 
     # -- calls into the system under test
+    judge_refusals = False   # set by a check whose model knows when the documented refusal is due
+
     def call(self, sig_prefix, fn, *a, **k):
         """Call into menelaus; any exception is a violation (the caller only uses this for calls
         that the property says must succeed)."""
@@ -165,7 +167,7 @@ class Ctx:
         except (Violation, NearTie, EndRun, HarnessError):
             raise
         except Exception as e:  # noqa: BLE001 - by design
-            if documented_refusal(e):
+            if documented_refusal(e) and not self.judge_refusals:
                 self.note("documented_refusal:cusum_zero_variance")
                 raise EndRun()
             tb = traceback.extract_tb(e.__traceback__)
